@@ -16,10 +16,11 @@ open Fit.Crc Fit.Go2Lean
 
 theorem C18_go2lean_table : Go.crc16.table.length = 16 ∧ ∀ i < 16, Go.crc16.table[i]? = some (T i) := crc_table
 
-theorem C18_go2lean_compute (c crc b : Nat) : Go.crc16.crc16.compute c crc b = some (compute crc b) := crc_compute c crc b
+theorem C18_go2lean_compute (c crc b : Nat) (hc : crc < 2 ^ 16) :
+    Go.crc16.crc16.compute c crc b = some (compute crc b) := crc_compute c crc b hc
 
-theorem C18_go2lean_write (c : Nat) (p : List Nat) :
-    Go.crc16.crc16.Write c p = some (write c p, (p.length : Int)) := crc_write c p
+theorem C18_go2lean_write (c : Nat) (p : List Nat) (hc : c < 2 ^ 16) :
+    Go.crc16.crc16.Write c p = some (write c p, (p.length : Int)) := crc_write c p hc
 
 theorem C18_go2lean_sum16 (c : Nat) : Go.crc16.crc16.Sum16 c = sum16 c := crc_sum16 c
 
@@ -32,16 +33,16 @@ pieces with the translated `Write`, read with the translated `Sum16`, gives the 
 theorem C18_go2lean_crc_of_source (c0 : Nat) (parts : List (List Nat)) (hp : Bytes parts.flatten) :
     (parts.foldlM (fun c p => (Go.crc16.crc16.Write c p).map (·.1)) (Go.crc16.crc16.Reset c0)).map Go.crc16.crc16.Sum16
       = some (crcSpec 0 parts.flatten) := by
-  have hw : (fun c p => (Go.crc16.crc16.Write c p).map (·.1)) = fun c p => some (write c p) := by
-    funext c p; simp [crc_write]
-  have h : ∀ (ps : List (List Nat)) (c : Nat),
-      ps.foldlM (fun c p => (some (write c p) : Option Nat)) c = some (ps.foldl write c) := by
+  have h : ∀ (ps : List (List Nat)) (c : Nat), c < 2 ^ 16 →
+      ps.foldlM (fun c p => (Go.crc16.crc16.Write c p).map (·.1)) c = some (ps.foldl write c) := by
     intro ps
     induction ps with
-    | nil => intro c; rfl
-    | cons p ps ih => intro c; simp [ih]
-  rw [hw]
-  rw [h, crc_reset, Option.map_some, crc_sum16, C18_split_many]
+    | nil => intro c _; rfl
+    | cons p ps ih =>
+      intro c hc
+      simp only [List.foldlM_cons, List.foldl_cons, crc_write c p hc, Option.map_some, Option.bind_eq_bind, Option.bind_some, bind]
+      exact ih _ (write_lt c hc p)
+  rw [crc_reset, h _ _ (by decide : reset < 2 ^ 16), Option.map_some, crc_sum16, C18_split_many]
   exact congrArg some (C18_crc_eq_spec _ hp)
 
 end Fit.C18
